@@ -293,8 +293,11 @@ def run(res, tier, lean, prop="C01", proof_breaks=(), build_log=""):
         parts = o.split(" | ")[0].split(" ; ") if applied else []
         for bi, (ops_b, real, mod) in enumerate(zip(applied, out["per_op"], parts)):
             mevs, _, simple = mod.rpartition(" simple=")
+            mevs, _, grow = mevs.rpartition(" grow=")
             realc = ",".join(pipe.canon_events(real))
             res.bump("bursts_replayed_in_model")
+            if grow == "1" and simple != "1":
+                res.bump("growth_bursts_replayed_in_model")      # the regime of burst_grow (mkdir -p + populate)
             if simple == "1":
                 res.bump("file_bursts_replayed_in_model" if recursive else "nonrecursive_bursts_replayed_in_model")
             same = (realc == mevs) if simple == "1" else (sorted(realc.split(",")) == sorted(mevs.split(",")))
